@@ -14,8 +14,8 @@ def run_config(chk, tier, cfgname):
                         "survival of stored upgrades over later cycles (history property)"]
     for t in ("weak_upgrade", "upgrade", "weak_is_dropped", "trace_weak", "forward_barrier_weak",
               "backward_barrier_weak", "weak_is_dead"):
-        typestate.apply(chk, t + "-table", t, aspects=("safety",))
-    typestate.apply(chk, "sweep-weak-rows", "sweep_one", only=lambda r: r.pre.get("cursor") in ("WW", "W"), aspects=("safety",))
+        typestate.apply(chk, t + "-table", t, aspects=("safety", "weak", "once"))
+    typestate.apply(chk, "sweep-weak-rows", "sweep_one", only=lambda r: r.pre.get("cursor") in ("WW", "W"), aspects=("weak", "once"))
     typestate.report_automaton(chk, ["S5", "S6"])
     prog.edges()
     for q in ("gc_weak::GcWeak::upgrade", "gc_weak::GcWeak::is_dropped", "gc_weak::GcWeak::is_dead",
